@@ -16,13 +16,14 @@ VERIF = mir.VERIF
 # property -> list of rule modules (each has run(ctx)); shared modules implement dependencies between properties
 PROPERTIES = {
     'C01': ['c01'],
-    'C03': ['c03'],
+    'C03': ['c03', 'c11'],
     'C06': ['c06'],
     'C08': ['c08'],
     'C09': ['c09'],
     'C11': ['c11'],
     'C12': ['c12'],
     'C15': ['c15'],
+    'C16': ['c16'],
     'C17': ['c17'],
     'C18': ['c18'],
     'C20': ['c20'],
